@@ -8,6 +8,29 @@ import ast
 from .src import AnalysisError, unparse
 
 
+from fractions import Fraction as _Fraction
+
+
+import itertools as _itertools
+import functools as _functools
+import operator as _operator
+import math as _math
+import collections as _collections
+
+_PURE_MODULES = {"itertools": _itertools, "functools": _functools, "operator": _operator, "math": _math, "collections": _collections}
+
+
+class Q(_Fraction):
+    """exact number of the `exact` mode: a Fraction that can be used as an index when it is an integer"""
+    def __index__(self):
+        if self.denominator != 1:
+            raise TypeError(f"{self} used as an index")
+        return self.numerator
+
+    def __repr__(self):
+        return str(_Fraction(self))
+
+
 class Sym:
     """symbolic object with named attributes; unknown attributes are an error"""
     def __init__(self, name, **attrs):
@@ -193,6 +216,10 @@ class SymInterp:
             cur = self.ev(s.target, env)
             v = self.ev(s.value, env)
             if isinstance(s.op, ast.Add):
+                if isinstance(cur, list):
+                    cur.extend(v)          # list.__iadd__ mutates the list object (an alias held by the caller sees the new items)
+                    self.assign(s.target, cur, env)
+                    return
                 self.assign(s.target, cur + v, env)
                 return
             if isinstance(s.op, ast.Mult):
@@ -320,6 +347,8 @@ class SymInterp:
     # ------------------------------------------------------------------ expressions
     def ev(self, e, env):
         if isinstance(e, ast.Constant):
+            if getattr(self, "exact", False) and isinstance(e.value, (int, float)) and not isinstance(e.value, bool):
+                return Q(e.value) if isinstance(e.value, int) else Q(_Fraction(repr(e.value)))       # exact mode: decimal literals are the rationals they spell
             return e.value
         if isinstance(e, ast.JoinedStr):
             out = []
@@ -338,6 +367,8 @@ class SymInterp:
                 return env[e.id]
             if e.id in self.builtins:
                 return self.builtins[e.id]
+            if e.id in _PURE_MODULES:
+                return _PURE_MODULES[e.id]          # pure standard-library modules are themselves (itertools.product, functools.reduce, ...)
             if e.id in ("int", "float", "complex", "bool", "str", "object", "list", "tuple", "dict", "set"):
                 return {"int": int, "float": float, "complex": complex, "bool": bool, "str": str, "object": object, "list": list, "tuple": tuple, "dict": dict, "set": set}[e.id]
             raise AnalysisError(f"unknown name {e.id} in symbolic interpretation")
@@ -349,6 +380,8 @@ class SymInterp:
                 else:
                     out.append(self.ev(x, env))
             return tuple(out) if isinstance(e, ast.Tuple) else out
+        if isinstance(e, ast.Set):
+            return {self.ev(x, env) for x in e.elts}
         if isinstance(e, ast.Dict) and all(k is not None for k in e.keys):
             return {self.ev(k, env): self.ev(v, env) for k, v in zip(e.keys, e.values)}
         if isinstance(e, ast.Attribute):
@@ -367,6 +400,8 @@ class SymInterp:
                 if callable(getattr(type(v), "symattr", None)):
                     return v.symattr(e.attr)
                 raise AnalysisError(f"symbolic object {v!r} has no attribute {e.attr}")
+            if any(v is m_ for m_ in _PURE_MODULES.values()):
+                return getattr(v, e.attr)
             if isinstance(v, (list, tuple, str, dict, set)) and e.attr in ("append", "extend", "copy", "remove", "index", "insert", "get", "items", "keys", "values", "update", "pop", "setdefault",
                                                                            "sort", "reverse", "count", "add", "discard", "clear"):
                 return getattr(v, e.attr)
@@ -386,6 +421,13 @@ class SymInterp:
                 st = self.ev(e.slice.step, env) if e.slice.step else None
                 return v[lo:hi:st]
             return v[self.ev(e.slice, env)]
+        if isinstance(e, ast.BinOp) and getattr(self, "exact", False) and not getattr(e, "_exact_done", False):
+            e._exact_done = True
+            try:
+                r = self.ev(e, env)
+            finally:
+                e._exact_done = False
+            return Q(r) if isinstance(r, _Fraction) and not isinstance(r, Q) else r
         if isinstance(e, ast.BinOp):
             a, b = self.ev(e.left, env), self.ev(e.right, env)
             if isinstance(a, Blob) and isinstance(b, (Blob, int, float)) or isinstance(b, Blob) and isinstance(a, (int, float)):
@@ -402,8 +444,11 @@ class SymInterp:
                 return a // b
             if isinstance(e.op, ast.Mod):
                 return a % b
-            if isinstance(e.op, ast.Pow) and isinstance(a, (int, float)) and isinstance(b, (int, float)):
-                return a ** b
+            if isinstance(e.op, ast.Pow) and not isinstance(a, Sym) and not isinstance(b, Sym):
+                try:
+                    return a ** b          # numbers of any exact / symbolic kind (int, float, Fraction, sympy)
+                except TypeError:
+                    pass
             if isinstance(e.op, ast.MatMult) and (isinstance(a, Blob) or isinstance(b, Blob)):
                 return Blob("matmul")
             if isinstance(e.op, ast.MatMult) and isinstance(a, Sym) and callable(getattr(type(a), "__matmul__", None)):
@@ -547,7 +592,9 @@ class SymInterp:
                 return Blob(f"{recv._name}.{f.attr}()")
             if isinstance(recv, _SuperProxy):
                 return recv.call(f.attr, args, kwargs)
-            if isinstance(recv, (list, tuple, str, dict)) or type(recv).__module__ == "collections":
+            if any(recv is m_ for m_ in _PURE_MODULES.values()):
+                return getattr(recv, f.attr)(*args, **kwargs)
+            if isinstance(recv, (list, tuple, str, dict, set, frozenset, range)) or type(recv).__module__ == "collections":
                 return getattr(recv, f.attr)(*args, **kwargs)
             target = self.resolver(recv, f.attr)
             if target is None and isinstance(recv, Sym) and callable(recv.__dict__.get(f.attr)):
